@@ -119,6 +119,8 @@ def shim_enumeration(ctx, stg, cases):
     known = histcheck.load_known("C03")
     n_runs = 0
     failures = []
+    n_multi = [0]
+    ctx.coverage["git_faults_after_a_completed_transaction"] = 0
     for case in cases:
         name, setup, cmd = case
         with repo.Scratch("c03s") as r:
@@ -166,6 +168,14 @@ def shim_enumeration(ctx, stg, cases):
                     # patch, then fold it in): the property asks for the state after the LAST COMPLETED
                     # transaction, which is what is left (a consistent stack, nothing lost)
                     continue
+                if known_class is None and completed >= 1 and cons and not s1["unmerged"] \
+                        and s1["tree"] is not None and s1["tree"] == s1.get("head_tree") \
+                        and not s1["wt_differs_from_index"]:
+                    # the same for a command whose completed transactions CHANGE the checked-out tree
+                    # (rebase: pop everything, `git reset --hard`, push back): what is left must be a
+                    # consistent stack whose branch head is exactly what index and work tree hold
+                    n_multi[0] += 1
+                    continue
                 failures.append({"case": name, "setup": setup, "cmd": cmd, "failed_git_call": k,
                                  "call": calls[k - 1][1][:80], "exit": 2,
                                  "refs_changed": s1["refs"] != s0["refs"], "tree_changed": s1["tree"] != s0["tree"],
@@ -174,6 +184,7 @@ def shim_enumeration(ctx, stg, cases):
                 failures.append({"case": name, "setup": setup, "cmd": cmd, "failed_git_call": k,
                                  "call": calls[k - 1][1][:80], "exit": p.returncode, "known": None,
                                  "stderr": p.stderr[-300:]})
+    ctx.coverage["git_faults_after_a_completed_transaction"] = n_multi[0]
     return n_runs, failures
 
 
